@@ -85,6 +85,7 @@ def build(rng, tier):
         else:
             xs = gen.axis_f(rng, n, "random"); flat = [rng.uniform(-2, 2) for _ in range(n * L)]
             qs = [rng.uniform(xs[0], xs[-1]) for _ in range(nq)]
+        flat = gen.degenerate(rng, n, L, flat, 0.12)
         near = None
         if kind == "spl":
             bc, lanes = c02.rand_bc(rng, S, L, trailing)
